@@ -67,7 +67,8 @@ class heap(object):
         return the future checnk address
         """
         ret = self.addr
-        self.addr = (self.addr + size + self.align - 1)
+        # An empty chunk still has its own address
+        self.addr = (self.addr + max(size, 1) + self.align - 1)
         self.addr &= self.mask ^ (self.align - 1)
         return ret
 
